@@ -237,12 +237,15 @@ impl Wdb2Header {
 
     /// Calculates the offset to the string block
     pub fn string_block_offset(&self) -> u64 {
-        self.header_size() + (self.record_count as u64 * self.record_size as u64)
+        // hostile headers can push the sum past u64::MAX; saturate instead of overflowing
+        self.header_size()
+            .saturating_add(self.record_count as u64 * self.record_size as u64)
     }
 
     /// Calculates the total size of the WDB2 file
     pub fn total_size(&self) -> u64 {
-        self.string_block_offset() + self.string_block_size as u64
+        self.string_block_offset()
+            .saturating_add(self.string_block_size as u64)
     }
 }
 
